@@ -259,6 +259,10 @@ def make_batch(agent, cfg: Dict[str, Any], seed: int, done_mode: str = "mixed", 
         nobs = _noise_where(nobs, done, o_sp, r_noise)
     act = sample_act(a_sp, r, B)
     rew = r.uniform(-1, 1, size=B).astype(np.float32)
+    if cfg.get("reward_mode") == "large":
+        rew = (rew * 8).astype(np.float32)  # beyond Rainbow's support range [-5, 5]: clamped target atoms
+    elif cfg.get("reward_mode") == "integer":
+        rew = np.round(rew * 6).astype(np.float32)  # exactly on atoms of the support (and on / beyond its ends)
     td = Transition(obs=obs, action=act, reward=rew, next_obs=nobs, done=done).to_tensordict()
     td.batch_size = [B]
     buf = ReplayBuffer(B)
